@@ -277,6 +277,7 @@ class SedovAhead(Obligation):
         self.bounds = 'rho0, eblast, omega, r, t symbolic; gamma fixed; internal table of 2 points; one user point'
         self.skip_validation = True
         self.max_paths = 120
+        self.budget_s = 240
 
     def shim_extra(self):
         import scipy.optimize as so
